@@ -1,0 +1,154 @@
+//go:build verif
+
+// Contracts for the end of a transaction's life (package corazawaf): Close, the pool, NewTransaction*.
+// Checked by /verif/govc (comment-only file; no code). Trusted specs: /verif/specs/close.spec.
+package corazawaf
+
+// inPool: the transaction pool holds the object (set by Pool.Put, cleared by Pool.Get: close.spec).
+//@ ghost field Transaction inPool bool
+
+// logRelevant(m): the matched rule m has logging enabled (what UploadKeepFilesRelevantOnly looks at).
+//@ define logRelevant(m types.MatchedRule) bool := typeof(m) == tag("*corazarules.MatchedRule") && payload(m, "*corazarules.MatchedRule").Log_
+
+// MatchedOK(tx): no entry of the matched-rule list is a typed nil pointer (MatchRule, the only writer of the list,
+// appends freshly allocated *corazarules.MatchedRule values: `entry` in zz_contracts_verif.go).
+//@ define MatchedOK(tx *Transaction) bool := forall j int :: 0 <= j && j < len(tx.matchedRules) ==>
+//@     (typeof(tx.matchedRules[j]) == tag("*corazarules.MatchedRule") ==> payload(tx.matchedRules[j], "*corazarules.MatchedRule") != nil)
+
+//@ func (*Transaction).hasLogRelevantMatchedRules props C20,C05,C07
+//@   requires MatchedOK(tx)
+//@   modifies nothing
+//@   ensures result <==> (exists j int :: 0 <= j && j < len(tx.matchedRules) && logRelevant(tx.matchedRules[j]))
+//@   loop 1
+//@     invariant -1 <= rangeindex && rangeindex < len(tx.matchedRules)
+//@     invariant forall j int :: 0 <= j && j <= rangeindex ==> !logRelevant(tx.matchedRules[j])
+
+// keepUploads(tx): upload retention applies to this transaction (SecUploadKeepFiles On, or RelevantOnly and a rule
+// with logging enabled matched).
+//@ define keepUploads(tx *Transaction) bool := tx.WAF.UploadKeepFiles == types.UploadKeepFilesOn ||
+//@     (tx.WAF.UploadKeepFiles == types.UploadKeepFilesRelevantOnly && (exists j int :: 0 <= j && j < len(tx.matchedRules) && logRelevant(tx.matchedRules[j])))
+
+// The uploaded files of the transaction: the values of FILES_TMPNAMES (all stored under the key "").
+//@ define uplKey(tx *Transaction) string := normKey(tx.variables.filesTmpNames, "")
+//@ define uplLen(tx *Transaction) int := ite(has(tx.variables.filesTmpNames.data, uplKey(tx)), len(tx.variables.filesTmpNames.data[uplKey(tx)]), 0)
+//@ define uplName(tx *Transaction, j int) string := tx.variables.filesTmpNames.data[uplKey(tx)][j].value
+// isUpload(tx, s): s is the name of an uploaded file of the transaction
+//@ define isUpload(tx *Transaction, s string) bool := exists j int :: 0 <= j && j < uplLen(tx) && uplName(tx, j) == s
+
+// EmptyBuf(b): a body buffer as NewBodyBuffer makes it: nothing stored, no spill file, no reader handed out.
+//@ define EmptyBuf(b *BodyBuffer) bool := b != nil && b.buffer != nil && b.length == 0 && b.buffer.content == "" && b.writer == nil && len(b.readers) == 0
+
+// VarsAllocated(tx): the transformation cache and the two collections this file talks about exist (TX, written by
+// newTransaction, and FILES_TMPNAMES, read by Close). NewTransactionVariables allocates ALL collections at once; listing
+// the ninety of them here makes every proof about Close slow, so the two stand for the set.
+//@ define VarsAllocated(tx *Transaction) bool := tx.transformationCache != nil && tx.variables.tx != nil && tx.variables.filesTmpNames != nil
+
+// PooledInv(tx): the state newTransaction expects of an object it takes from the pool ("always non-nil if buffers /
+// collections were already initialized", waf.go): both buffers exist and are empty (nothing stored, no spill file, no
+// reader attached), the collections and the transformation cache exist. (That every collection is EMPTY is what
+// reset() is for: see reset$1 below and `visits` of All; the transformation cache is emptied by RuleGroup.Eval
+// before the first rule of every phase, `cacheEmptied`, so stale entries are never read.)
+// A pooled (closed) object has the id "": Close clears it, newTransaction gives every live transaction a non-empty one.
+//@ define PooledInv(tx *Transaction) bool := EmptyBuf(tx.requestBodyBuffer) && EmptyBuf(tx.responseBodyBuffer) && VarsAllocated(tx) && tx.id == ""
+
+// attachedTo(b, r): r is one of the readers the buffer b has handed out and not yet detached.
+//@ define attachedTo(b *BodyBuffer, r *bodyBufferReader) bool := exists j int :: 0 <= j && j < len(b.readers) && b.readers[j] == r
+//@ define ReadersOK(b *BodyBuffer) bool := forall j int :: 0 <= j && j < len(b.readers) ==> b.readers[j] != nil
+// TxLive(tx): tx is a transaction made by NewTransaction (object validity, no statement about its content; in
+// particular NOT `!tx.inPool`: the property lets a transaction be closed twice).
+//@ define TxLive(tx *Transaction) bool := tx.WAF != nil && !isnil(tx.WAF.txPool) && !isnil(tx.debugLogger) &&
+//@     tx.requestBodyBuffer != nil && tx.responseBodyBuffer != nil && tx.requestBodyBuffer != tx.responseBodyBuffer &&
+//@     tx.requestBodyBuffer.buffer != nil && tx.responseBodyBuffer.buffer != nil &&
+//@     ReadersOK(tx.requestBodyBuffer) && ReadersOK(tx.responseBodyBuffer) && VarsAllocated(tx) && MatchedOK(tx)
+
+// Close (C20, C05). Temp files of a transaction: the spill files of its two body buffers and the uploaded files named
+// in FILES_TMPNAMES; liveTmp = the temp files that exist, removeTried = the names os.Remove was called with
+// (/verif/specs/stdlib.spec). For EVERY combination of failing file-system calls:
+//  spillTried / uploadsTried   removal of every such file is attempted -- a failing Remove (or Reset) does not stop the
+//                              clean-up of the others (uploads: unless upload retention applies, keepUploads);
+//  reportedSpill / reportedUploads   nothing is swallowed: when Close returns nil none of these files is left;
+//  uploadsKept / onlyOwn       with upload retention the uploaded files stay, and Close never removes a file that is
+//                              not one of the transaction's own; nothingCreated: it creates none;
+//  buffersEmpty, readersDetached   both buffers end empty and every reader they had handed out is detached: with
+//                              `closed` of (*bodyBufferReader).Read (n == 0, error, p untouched when br == nil) a reader
+//                              obtained before Close yields no data afterwards;
+//  pooled + the preconditions of Pool.Put (close.spec), checked at the deferred Put: `state` = the object goes back in
+//                              the state newTransaction expects (PooledInv); `once` = it is not in the pool already.
+//  Closing twice (the property allows it): the id tells a live transaction (non-empty id, set by newTransaction) from
+//  a closed one (id "", cleared by Close before anything else); `closedIffNoId` links it to the ghost flag inPool
+//  (established by NewTransaction*: FreshState has id != "" and !inPool; re-established by Close: idCleared, pooled).
+//  All clauses above are about closing a LIVE transaction (old(tx.id) != ""); `secondCloseIsNoop`: closing a closed one
+//  returns nil and changes nothing -- no file, no removal attempt, no buffer, no reader, nobody's pool membership.
+//  (History: before fix cf1254c the second Close pooled the object a second time, pre/...Pool.Put/once failed.)
+//@ func (*Transaction).Close props C05,C20,C07
+//@   requires TxLive(tx)
+//@   requires closedIffNoId: tx.inPool <==> tx.id == ""
+//@   ensures spillTried: old(tx.id) != "" ==> (old(tx.requestBodyBuffer.writer) != nil ==> in(old(tx.requestBodyBuffer.writer.name), removeTried)) &&
+//@       (old(tx.responseBodyBuffer.writer) != nil ==> in(old(tx.responseBodyBuffer.writer.name), removeTried))
+//@   ensures uploadsTried: old(tx.id) != "" && !old(keepUploads(tx)) ==> (forall s string :: old(isUpload(tx, s)) ==> in(s, removeTried))
+//@   ensures reportedSpill: old(tx.id) != "" && isnil(result) ==> (old(tx.requestBodyBuffer.writer) != nil ==> !in(old(tx.requestBodyBuffer.writer.name), liveTmp)) &&
+//@       (old(tx.responseBodyBuffer.writer) != nil ==> !in(old(tx.responseBodyBuffer.writer.name), liveTmp))
+//@   ensures reportedUploads: old(tx.id) != "" && isnil(result) && !old(keepUploads(tx)) ==> (forall s string :: old(isUpload(tx, s)) ==> !in(s, liveTmp))
+//@   ensures nothingCreated: forall s string :: in(s, liveTmp) ==> in(s, old(liveTmp))
+//@   ensures buffersEmpty: old(tx.id) != "" ==> EmptyBuf(tx.requestBodyBuffer) && EmptyBuf(tx.responseBodyBuffer)
+//@   ensures uploadsKept: old(tx.id) != "" && old(keepUploads(tx)) ==> (forall s string :: old(isUpload(tx, s)) && in(s, old(liveTmp)) &&
+//@       !(old(tx.requestBodyBuffer.writer) != nil && s == old(tx.requestBodyBuffer.writer.name)) &&
+//@       !(old(tx.responseBodyBuffer.writer) != nil && s == old(tx.responseBodyBuffer.writer.name)) ==> in(s, liveTmp))
+//@   ensures onlyOwn: forall s string :: in(s, old(liveTmp)) && !in(s, liveTmp) ==>
+//@       (old(tx.requestBodyBuffer.writer) != nil && s == old(tx.requestBodyBuffer.writer.name)) ||
+//@       (old(tx.responseBodyBuffer.writer) != nil && s == old(tx.responseBodyBuffer.writer.name)) ||
+//@       (!old(keepUploads(tx)) && old(isUpload(tx, s)))
+//@   ensures readersDetached: old(tx.id) != "" ==> (forall r *bodyBufferReader :: old(attachedTo(tx.requestBodyBuffer, r)) || old(attachedTo(tx.responseBodyBuffer, r)) ==> r.br == nil)
+//@   ensures pooled: tx.inPool
+//@   ensures idCleared: tx.id == ""
+//@   ensures othersPooledAsBefore: forall t *Transaction :: t != tx ==> t.inPool == old(t.inPool)
+//@   ensures secondCloseIsNoop: old(tx.id) == "" ==> isnil(result) && liveTmp == old(liveTmp) && removeTried == old(removeTried) &&
+//@       (forall t *Transaction :: t.inPool == old(t.inPool)) &&
+//@       (forall b *BodyBuffer :: b.length == old(b.length) && b.writer == old(b.writer) && b.readers == old(b.readers) && b.buffer == old(b.buffer)) &&
+//@       (forall r *bodyBufferReader :: r.br == old(r.br) && r.pos == old(r.pos)) &&
+//@       tx.requestBodyBuffer.buffer.content == old(tx.requestBodyBuffer.buffer.content) && tx.responseBodyBuffer.buffer.content == old(tx.responseBodyBuffer.buffer.content)
+//@   loop 1
+//@     invariant -1 <= rangeindex && rangeindex < old(uplLen(tx))
+//@     invariant forall j int :: 0 <= j && j <= rangeindex ==> in(old(uplName(tx, j)), removeTried) && (in(old(uplName(tx, j)), liveTmp) ==> len(errs) > 0)
+//@     invariant forall s string :: in(s, liveTmp) ==> in(s, old(liveTmp))
+//@     invariant forall s string :: in(s, old(liveTmp)) && !in(s, liveTmp) ==> (exists j int :: 0 <= j && j <= rangeindex && s == old(uplName(tx, j)))
+//@     invariant forall s string :: in(s, old(removeTried)) ==> in(s, removeTried)
+
+// ---------------------------------------------------------------- resetting the variables (C05)
+
+// The callback that (*TransactionVariables).reset hands to All: it empties the collection it is given when the
+// collection has own state (Single, Map, NamedCollection: the resettable ones; the *Names / Concat* / Size views have
+// none) and ALWAYS returns true, so All goes on to the next collection (with `visits` of All in zz_contracts_verif.go:
+// every collection of the transaction reaches this callback).
+//@ func (*TransactionVariables).reset$1 props C05,C20
+//@   ensures goesOn: result
+//@   ensures single: typeof(col) == tag("*collections.Single") ==> payload(col, "*collections.Single").data == ""
+//@   ensures map: typeof(col) == tag("*collections.Map") && payload(col, "*collections.Map") != nil ==>
+//@       (forall k string :: !has(payload(col, "*collections.Map").data, k))
+//@   ensures named: typeof(col) == tag("*collections.NamedCollection") && payload(col, "*collections.NamedCollection") != nil &&
+//@       payload(col, "*collections.NamedCollection").Map != nil ==> (forall k string :: !has(payload(col, "*collections.NamedCollection").Map.data, k))
+
+// ---------------------------------------------------------------- a new transaction (C05)
+
+// FreshState(tx, w): what a transaction of WAF w looks like when it is handed out: no interruption, nothing matched,
+// no pending flow control, engine / audit / body settings as configured on the WAF, no per-transaction exclusions,
+// empty body buffers, not in the pool, a non-empty id (what tells a live transaction from a closed one).
+//@ define FreshState(tx *Transaction, w *WAF) bool := tx != nil && tx.WAF == w && tx.interruption == nil && tx.detectionOnlyInterruption == nil && tx.lastPhase == 0 &&
+//@     tx.Skip == 0 && tx.SkipAfter == "" && tx.AllowType == 0 && !tx.Capture && !tx.audit &&
+//@     tx.RuleEngine == w.RuleEngine && tx.AuditEngine == w.AuditEngine &&
+//@     tx.RequestBodyAccess == w.RequestBodyAccess && tx.RequestBodyLimit == w.RequestBodyLimit &&
+//@     tx.ResponseBodyAccess == w.ResponseBodyAccess && tx.ResponseBodyLimit == w.ResponseBodyLimit &&
+//@     len(tx.matchedRules) == 0 && tx.ruleRemoveByID == nil && len(tx.ruleRemoveByIDRanges) == 0 && len(tx.ruleRemoveTargetByID) == 0 && len(tx.stopWatches) == 0 &&
+//@     EmptyBuf(tx.requestBodyBuffer) && EmptyBuf(tx.responseBodyBuffer) && !tx.inPool && tx.id != ""
+
+// Whether the object comes from the pool or is brand new, the caller gets the same state.
+// (noLockHeld: sequential view -- the caller holds no mutex; the id generator takes a package-level one.)
+//@ func (*WAF).NewTransaction props C05,C20,C07
+//@   requires noLockHeld: forall mx *sync.Mutex :: !mx.held
+//@   ensures FreshState(result, w)
+//@   ensures othersPooledAsBefore: forall t *Transaction :: t != result ==> t.inPool == old(t.inPool)
+//@ func (*WAF).NewTransactionWithOptions props C05,C20,C07
+//@   requires noLockHeld: forall mx *sync.Mutex :: !mx.held
+//@   ensures FreshState(result, w)
+//@   ensures givenID: opts.ID != "" ==> result.id == opts.ID
+//@   ensures othersPooledAsBefore: forall t *Transaction :: t != result ==> t.inPool == old(t.inPool)
